@@ -25,6 +25,8 @@ inductive Kind where
 def msgErr : Err := .h3 0x10E
 /-- `ErrorCode.H3_FRAME_UNEXPECTED` (`FrameUnexpected`) -/
 def frameUnexpected : Err := .h3 0x105
+/-- `ErrorCode.H3_FRAME_ERROR` (`FrameError`) -/
+def frameError : Err := .h3 0x106
 
 /-! ### byte-string constants (explicit so that `decide` can evaluate them) -/
 /-- `b":method"` -/
@@ -352,9 +354,14 @@ def handleFrame (s : St) (f : Frame) (ended : Bool) : Outcome (St × List Event)
     else if ¬ s.isClient then .error frameUnexpected
     else do
       let _ ← validateOn .push none hs
-      .ok (s, [.pushPromise hs])
+      -- `if stream_ended and frame_type not in (DATA, HEADERS)`: signal the end
+      if ended then checkContentLength s
+      .ok (s, [.pushPromise hs] ++ (if ended then [.data 0 true] else []))
   | .other t =>
-    if forbiddenFrame t then .error frameUnexpected else .ok (s, [])
+    if forbiddenFrame t then .error frameUnexpected
+    else do
+      if ended then checkContentLength s
+      .ok (s, if ended then [.data 0 true] else [])
 
 /-- One `StreamDataReceived` for the stream, described abstractly. -/
 inductive Op where
@@ -387,9 +394,16 @@ def applicable (s : St) : Op → Bool
   | .other t _ => s.rem = 0 && t ≠ 0x0 && t ≠ 0x1 && t ≠ 0x5 && t ≠ 0x41
   | .hdrdata hs _ _ => s.rem = 0 && encodable hs
 
-/-- the "DATA frame fragment" shortcut of `_receive_request_or_push_data` -/
-def shortcut (s : St) (n : Nat) : St × List Event :=
-  ({ s with cl := s.cl + n, rem := s.rem - n }, [.data n false])
+/-- the "DATA frame fragment" shortcut of `_receive_request_or_push_data`
+    (`stream_ended` is the FIN flag of this very `StreamDataReceived`) -/
+def shortcut (s : St) (n : Nat) (streamEnded : Bool) : Outcome (St × List Event) :=
+  if streamEnded then .error frameError       -- "Stream ended with a truncated frame"
+  else .ok ({ s with cl := s.cl + n, rem := s.rem - n }, [.data n false])
+
+/-- the check after the frame loop: "a stream must not end in the middle of a
+    frame" (no bytes are ever left over by the ops modelled here) -/
+def endCheck (s : St) : Outcome Unit :=
+  if s.recvEnded ∧ s.rem ≠ 0 then .error frameError else .ok ()
 
 /-- `_receive_request_or_push_data(stream, data, stream_ended)` for an applicable op -/
 def receive (s : St) (op : Op) : Outcome (St × List Event) :=
@@ -399,19 +413,22 @@ def receive (s : St) (op : Op) : Outcome (St × List Event) :=
     handleFrame s (.headers hs) s.recvEnded
   | .data total present fin => do
     let s := { s with recvEnded := s.recvEnded || fin }
-    let (s, evs) ← handleFrame s (.data present) s.recvEnded
-    .ok ({ s with rem := total - present }, evs)
+    -- `stream_ended = receiving_ended and buf.eof() and frame_size is None`
+    let (s, evs) ← handleFrame s (.data present) (s.recvEnded && total - present == 0)
+    let s := { s with rem := total - present }
+    endCheck s
+    .ok (s, evs)
   | .frag n fin =>
     let s := { s with recvEnded := s.recvEnded || fin }
-    if n < s.rem then .ok (shortcut s n)
+    if n < s.rem then shortcut s n fin
     else do
       let (s, evs) ← handleFrame s (.data n) s.recvEnded
       .ok ({ s with rem := 0 }, evs)
   | .fin =>
     let s := { s with recvEnded := true }
-    if 0 < s.rem then .ok (shortcut s 0)
+    if 0 < s.rem then shortcut s 0 true
     else do
-      -- lone FIN
+      -- lone FIN (`frame_size is None` here)
       checkContentLength s
       .ok (s, [.data 0 true])
   | .pp hs fin =>
